@@ -509,6 +509,7 @@ def run(ctx, env):
     ctx.rule("R13.2", "V9/IPFIX: each operand looks up exactly the expected field key(s) in the per-record map; version/timestamp from the header")
     ctx.rule("R13.3", "producer/consumer kind agreement: the FieldValue kind decoded for each selected key is accepted by the target conversion (else the common field is None for every input)")
     ctx.rule("R13.4", "one common flow per record: the per-record map is created once per record and receives one insert per template field")
+    ctx.rule("R13.6", "V9/IPFIX: common flows are made from the records of data flowsets only: the per-record map every lookup reads is an element of `fields` of the Data body (accessor helpers, public or private, inlined) - options data, whose records are not flows, is never walked")
     ctx.rule("R13.5", "NetflowPacket::Error converts to Err; the flattening helper is parse_bytes → iter → flat_map(as_netflow_common().unwrap_or_default().flowsets) → collect")
     # R13.1
     for ver, mod in ((5, "static_versions::v5::V5"), (7, "static_versions::v7::V7")):
@@ -663,6 +664,45 @@ def run(ctx, env):
                     ok = pv in dn
                     detail += "; width %s -> DataNumber::%s; %s accepts DataNumber::%s" % (w, pv, T, sorted(dn))
                 ctx.ob("R13.3", P["fn"], "kind:%s<-%s" % (nm, key), ok, detail, site=site(s["span"]))
+        # R13.6: where the records come from
+        srcs = set()
+        an.interp.allow_pub = True
+        try:
+            for nm, o in zip(s["rv"]["fields"], s["rv"]["ops"]):
+                if not P["keys"][nm]:
+                    continue
+                e6 = an.slicer(b).operand(o)
+                if amap:
+                    e6 = an.interp.subst(e6, amap)
+                e6 = an.expand(e6)
+                _, e6 = an.lift(b, e6)
+                e6 = an.expand(e6)
+                mod = P["enum"].rsplit("::", 1)[0].replace("_lookup", "")
+                for n6 in find(e6, lambda n: n[0] == "field" and len(n) > 3 and str(n[3]).startswith(mod + "::") and str(n[3]).rsplit("::", 1)[1] in ("Data", "OptionsData", "Templates", "OptionsTemplates", "Template", "OptionsTemplate")):
+                    srcs.add((str(n6[3]).rsplit("::", 1)[1], n6[2]))
+        finally:
+            an.interp.allow_pub = False
+        how6 = "the flow fields are looked up in records taken from %s" % sorted("%s.%s" % x for x in srcs)
+        if not srcs:
+            # iterator-chain forms (`.filter_map(|fs| match &fs.body { Data(d) => Some(d), .. }).flat_map(|d| d.fields.iter())`)
+            # hide the element from the slicer: fall back to what the conversion and everything it calls can touch at
+            # all - `fields` of the Data body and of no other flowset body
+            mod6 = P["enum"].rsplit("::", 1)[0].replace("_lookup", "")
+
+            def accesses(x, out):
+                if isinstance(x, dict):
+                    if x.get("k") == "field" and x.get("adt") and str(x["adt"]).startswith(mod6 + "::") and x.get("name") in ("fields", "templates", "scope_fields", "option_fields"):
+                        out.add((str(x["adt"]).rsplit("::", 1)[1], x["name"]))
+                    for v in x.values():
+                        accesses(v, out)
+                elif isinstance(x, list):
+                    for v in x:
+                        accesses(v, out)
+            for rb6 in rb.values():
+                if not rb6.derived:
+                    accesses(rb6.j.get("mir"), srcs)
+            how6 = "the conversion (and what it calls) reads %s" % (sorted("%s.%s" % x for x in srcs) or "no flowset body at all (unrecognised shape)")
+        ctx.ob("R13.6", P["fn"], "records-of-data-flowsets-only", srcs == {("Data", "fields")}, how6, site=site(s["span"]))
         top = top_fields(an, prog, b0, rb)
         if top:
             v, ts = top
